@@ -188,8 +188,23 @@ pub fn check_case(c: &Case, rep: &mut Report) {
                     sv.send_demand_active(cur);
                 });
                 let mut ok = true;
-                for _ in 0..6 {
+                for step in 0..6 {
                     ok &= matches!(mon::guarded(|| s.client.read(|_| {}).is_ok()), Ok(true));
+                    // between the deactivation and the end of the new activation the application keeps submitting (a GUI
+                    // does not know): such an event is refused or dropped, puts nothing on the wire - and must not come
+                    // back later inside somebody else's PDU
+                    if ok && (step == 0 || (step == 3 && i % 2 == 0)) {
+                        let before = s.server.with(|sv| (sv.events.len(), sv.malformed.len()));
+                        let ev = RdpEvent::Pointer(PointerEvent { x: 0x7A7A, y: 0x7B7B, button: PointerButton::None, down: false });
+                        let _ = match &mut s.client {
+                            crate::client::Client::Real(rc) => mon::guarded(|| if i % 3 == 0 { rc.write(ev).is_ok() } else { rc.try_write(ev).is_ok() }),
+                            crate::client::Client::Plain(p) => mon::guarded(|| p.global.write_input_event(ts_pointer_event(Some(0x0800), Some(0x7A7A), Some(0x7B7B)), &mut p.mcs).is_ok()),
+                        };
+                        let after = s.server.with(|sv| (sv.events.iter().skip(before.0).filter(|e| matches!(&e.msg, ClientMsg::Share { msg: ShareMsg::Input { .. }, .. })).count(), sv.malformed.len()));
+                        if after.0 > 0 || after.1 > before.1 {
+                            viol.push(("C11/input-written-while-inactive".into(), format!("op {}: an event submitted between deactivation and re-activation reached the wire", i)));
+                        }
+                    }
                 }
                 if !ok {
                     viol.push(("C11/reactivation-failed".into(), format!("op {}: the client did not come through a deactivation-reactivation sequence", i)));
@@ -243,6 +258,11 @@ pub fn check_case(c: &Case, rep: &mut Report) {
         let refused_here = refusal && is_input && input_no == refuse_at_op;
         if is_input {
             input_no += 1;
+        }
+        if short_writes && is_input && i % 4 == 1 {
+            // a signal arrives after part of the frame was taken: the next write call is interrupted (nothing transferred, to
+            // be repeated); the frame still arrives once and whole
+            s.server.with(|sv| sv.fail_write_once = Some((1 + i % 3, std::io::ErrorKind::Interrupted)));
         }
         if refused_here {
             let kind = [std::io::ErrorKind::WouldBlock, std::io::ErrorKind::TimedOut, std::io::ErrorKind::Other][(c.gen[1] / 16 % 3) as usize];
